@@ -70,6 +70,17 @@ CHECKS.update({
         "all masks and stored seeds pairwise distinct, equal explicit generator states give equal masks and leave the generator in the same state; 32-byte windows of 64 KiB / 1 MiB distinct; ternary/error/uniform samples for 1..6 primes well-formed.",
    ref="DESIGN.md 4/C16", note="Trusted: TLC, spec/BlakeRng.tla, the blake3 crate used for the reference stream, 96-bit digests for comparing masks. Distribution checks are sanity bounds only."),
 })
+CHECKS.update({
+ "C11": dict(cat="model_checking", tech="trace validation (impl->spec): recorded BatchEncoder / apply_galois_plain behaviour checked by TLC against spec/Batch.tla (slots = evaluations at psi^(3^i), psi^(-3^i))",
+   text="For 14 (quick) / 27 (thorough) batching-compatible (N, t) with N = 2..64, t < 2^15: all N unit vectors, extreme, empty, short and random vectors encoded and decoded, arbitrary short polynomials decoded, "
+        "sums and negacyclic products of encoder outputs act slot-wise, the automorphism the library associates with every step -(N/2-1)..N/2-1 rotates both rows left by the step, the column swap exchanges the rows, "
+        "coefficient encoding reduces modulo t.", ref="DESIGN.md 4/C11", note="Trusted: TLC, spec/Batch.tla. Plain moduli above 2^15 (up to 60 bits) and N > 64 are not covered (native TLC integers)."),
+ "C18": dict(cat="model_checking", tech="TLC enumerates delivery orders and (premature) finish attempts over spec/Multiparty.tla (Agreement, NoEarlyFinish); every order replayed with real Participants for each protocol",
+   text="All delivery orders of one broadcast round for 2 and 3 parties (all-to-all and star topology), sampled for 4-6 parties, with at most one premature finish, replayed for public-key generation, secret-key revelation, "
+        "two-round relinearization keys, collective decryption, key switch, public-key switch, cipher->shares and shares->cipher over BFV, BGV and CKKS: premature finish refused, outputs byte-identical across parties, "
+        "collective keys usable under the sum of the secret keys, plaintext preserved.", ref="DESIGN.md 4/C18",
+   note="Trusted: TLC, spec/Multiparty.tla (abstract additive shares), harness/src/c18.rs. Only the round structure is modelled; ring identities are observed through ordinary encryption/decryption under the summed key."),
+})
 NA_REASON = "check not built yet in this round (work in progress; see DESIGN.md section 8)"
 EXTRA = os.path.join(ROOT, "lib", "manifest_extra.json")
 
